@@ -38,7 +38,7 @@ CHECKS = {
         design="§4 C04"),
     "C05": dict(
         category="exploration",
-        technique="runtime monitoring: fail-closed shape monitor + independent must-fail oracle over byte x position sweeps and call histories, on the default build and on one with the other failure-token option",
+        technique="runtime monitoring: fail-closed shape monitor + independent must-fail oracle over byte x position sweeps and call histories, on the default build, on one with the other failure-token option and on a -funsigned-char build",
         text="Every observed failure left NULL/the failure token, a documented errno and exactly the token in the output "
              "field; no request the must-fail oracle rejects produced a hash; thorough tier sweeps every byte value at "
              "every position of one valid setting per method.",
@@ -84,7 +84,7 @@ CHECKS = {
         category="exploration",
         technique="runtime monitoring: independent cost-field decoder + documented count->cost function + reference model at the decoded cost",
         text="For every executed (prefix, count) the acceptance matched the documented range and the decoded cost equalled the documented "
-             "function; affordable costs were tied to the work crypt does via the reference models; outcomes did not depend on errno at entry. Known finding F4 (sunmd5 wrap) reported.",
+             "function; affordable costs were tied to the work crypt does via the reference models, unaffordable ones (2^31+ iterations) by a work lower bound (no hash within seconds); outcomes did not depend on errno at entry. Known finding F4 (sunmd5 wrap) reported.",
         note="yescrypt/scrypt applied cost is judged by C02; only sampled 64-bit counts beyond the enumerated small ranges.",
         design="§4 C11"),
     "C12": dict(
@@ -133,7 +133,7 @@ CHECKS = {
         category="exploration",
         technique="runtime monitoring: exhaustive enumeration of short strings against an independent classifier built from hashes.conf",
         text="crypt_checksalt agreed with the independent classifier on every byte string of length <= 3, on the length-4 printable "
-             "strings (all in thorough), on random longer strings and on all hashed settings; preferred method OK and equal to NULL prefix.",
+             "strings (all in thorough), on random longer strings and on all hashed settings; preferred method OK and equal to NULL prefix; a program compiled -O2/-O3 against the generated header got the same answers.",
         note="Exhaustive for the enumerated spaces only; six further build configurations are enumerated up to length 3, the rest are C19's.",
         design="§4 C18"),
     "C19": dict(
